@@ -66,6 +66,7 @@ func c06Open(api, path string, initial []byte, fresh bool, roots []cid.Cid, cfg 
 	}
 	s.mf = iofault.New(initial)
 	s.mf.NoLog = !trace
+	s.mf.EagerEOF = len(initial)%2 == 1 || (len(initial) == 0 && cfg.DataPad%2 == 1)
 	if fresh {
 		s.sc, err = storage.NewReadableWritable(s.mf, roots, cfg.Opts()...)
 	} else {
